@@ -54,6 +54,10 @@ def run(out):
                 src = getattr(fv, "cast_from", None)
                 if fv.kind != "bv" or src is None:
                     continue
+                while getattr(src, "cast_from", None) is not None:     # provenance chain back to the term's own integer
+                    src = src.cast_from
+                if src.kind != "bv" or src.w < fv.w:
+                    continue
                 fields_seen.add(fname)
                 ext = "sign_extend" if getattr(fv, "signed", False) else "zero_extend"
                 checks.append("(= ((_ %s %d) %s) %s)" % (ext, src.w - fv.w, fv.s, src.s))
@@ -72,8 +76,8 @@ def run(out):
         if st == "unsat":
             st2, _m, dt2 = bmc.solve(lines, q, [], solver="cvc5", timeout_s=300)
             sample["cvc5"] = st2
-            out.append(_rec(name, "PASS" if st2 != "sat" else "INCONCLUSIVE", time.time() - t1, sample=sample, solver_s=dt + dt2,
-                            notes=[] if st2 != "sat" else ["z3 unsat but cvc5 sat"]))
+            out.append(_rec(name, "PASS" if st2 not in ("sat", "error") else "INCONCLUSIVE", time.time() - t1, sample=sample, solver_s=dt + dt2,
+                            notes=[] if st2 not in ("sat", "error") else ["z3 unsat but cvc5 %s" % st2]))
         elif st == "sat":
             args = []
             for k, v in sorted(model.items()):
